@@ -34,6 +34,8 @@ const c03Schema = `{"name":"TYP","version":"1.0.0","tables":{"T":{"columns":{
  "ss":{"type":{"key":{"type":"string"},"min":0,"max":"unlimited"}},
  "su":{"type":{"key":{"type":"uuid"},"min":0,"max":"unlimited"}},
  "sr":{"type":{"key":{"type":"real"},"min":0,"max":"unlimited"}},
+ "sb":{"type":{"key":{"type":"integer"},"min":0,"max":3}},
+ "sbs":{"type":{"key":{"type":"string"},"min":0,"max":4}},
  "mss":{"type":{"key":{"type":"string"},"value":{"type":"string"},"min":0,"max":"unlimited"}},
  "msi":{"type":{"key":{"type":"string"},"value":{"type":"integer"},"min":0,"max":"unlimited"}},
  "mis":{"type":{"key":{"type":"integer"},"value":{"type":"string"},"min":0,"max":"unlimited"}},
